@@ -167,6 +167,16 @@ def gen_scenario(batch_seed, i, tier):
             makes.append(m)
             threads[0].append(m)
             threads[0].append({'op': 'reencode', 'sym': m['id'], 'symspec': {'fn': m['fn'], 'content': m['content'], 'kw': m['kw']}, 'name': 't0r%d' % k})
+    # an abandoned (half-consumed) iteration is followed by a complete one with the same geometry: state left behind by
+    # the abandoned generator (buffers, positions) shows in the next iteration of the same row length
+    for th in threads:
+        k = 0
+        while k < len(th):
+            o = th[k]
+            if o['op'] == 'miter' and o.get('consume') == 'half' and rng.random() < 0.7:
+                th.insert(k + 1, dict(o, consume=rng.choice(('all', 'all', 'list')), name=o['name'] + 'f'))
+                k += 1
+            k += 1
     gran = 'instr' if (trace and rng.random() < 0.1) else 'line'
     kind = rng.weighted([('geometric', 45), ('bimodal', 20), ('fixed', 10), ('starve', 12), ('sequential', 13)])
     mean = rng.choice((3, 10, 40, 150, 600, 2500, 10000, 40000))
@@ -202,7 +212,7 @@ def gen_scenario(batch_seed, i, tier):
     policy = {'kind': kind, 'mean': mean, 'seed': rng.getrandbits(48), 'victim': rng.randrange(nthreads)}
     if kind == 'rendezvous':
         if gran == 'instr':
-            policy.update(rv_prob=rng.choice((0.1, 0.25, 0.5)), tight=rng.choice((24, 40, 70)), patience=rng.choice((5000, 30000)))
+            policy.update(rv_prob=rng.choice((0.5, 1.0, 1.0)), tight=rng.choice((40, 70)), patience=rng.choice((5000, 30000)))
         else:   # line-granular rendezvous: cheap, so every point is a rendezvous; a dozen lines of tight alternation
             policy.update(rv_prob=rng.choice((0.5, 1.0)), tight=rng.choice((6, 12, 25)), patience=rng.choice((2000, 10000)))
     faults = []
